@@ -28,6 +28,18 @@ def combos(ctx, rnd):
         for t in ts:
             out.append(('c04', t, (p, f, None, 'root_dir')))
         out.append(('c04', 'link1', (p, f, None, 'dir_fd' if k % 2 else 'cwd')))
+    # every pattern under further flag sets (the statement quantifies over flag sets, the list above fixes one per pattern)
+    FP = [S, L, S | F, L | F, S | MB, L | MB, S | MB | F, L | MB | F, S | D, S | D | MB, S | ND, S | E, L | D, MB, MB | D, S | I, S | G.MARK, L | F | D | MB]
+    small = ['nest', 'link1', 'hid', 'linkfile', 'sib', 'dotlink']
+    for k, (p, f) in enumerate(pats):
+        if ctx.quick:
+            fsel = rnd.sample(FP, 2)
+            for f2 in fsel:
+                out.append(('c04', rnd.choice(small), (p, f2, None, 'root_dir')))
+        else:
+            for f2 in FP:
+                for t in small:
+                    out.append(('c04', t, (p, f2, None, 'root_dir')))
     for k, (p, f, ex) in enumerate(lists):
         for t in (['nest', 'link1', 'hid', 'hid2', 'linkfile', 'flat'] if ctx.quick else names):
             out.append(('c04', t, (p, f, ex, 'root_dir')))
@@ -44,5 +56,6 @@ def describe(params):
 
 def run(ctx):
     rnd = random.Random(ctx.seed * 7919 + 4)
-    fsdriver.run_property(ctx, combos(ctx, rnd), 'c04_classify', 4000 if ctx.quick else 60000, describe)
+    # C03's and C06's listed findings have a footprint here too (hidden names under MATCHBASE + `**`; adjacent globstar kinds): stated exclusions
+    fsdriver.run_property(ctx, combos(ctx, rnd), 'c04_classify', 4000 if ctx.quick else 60000, describe, known_from=('C03', 'C06'), own=True)
     ctx.coverage['functions_encoded'] = ['glob.Glob (walker) and _wcmatch._Match (REALPATH matching) executed natively over the symbolic os layer']
